@@ -380,6 +380,44 @@ def check(model, rep):
                   'for another segment')
     reads = [norm_text(r.value) for r in ast.walk(gi.node) if isinstance(r, ast.Return) and r.value is not None]
     rep.ob('R15.5', gi, 'indexing reads the six-vector', bool(reads) and all(t.startswith('self.TAA[') for t in reads), 'tm.__getitem__ returns %s' % reads)
+    # R15.6 the end points the test reads are the positions the nodes were given
+    rep.rule('R15.6', 'a node keeps the position it is given: PathNode.__init__ binds self.position to its argument (or a copy) on every path - never '
+                      'to tm(argument), which reads a 3-sequence as a rotation - and getPosition returns that field')
+    pn = model.cls(cls.module.name, 'PathNode')
+    if pn is None or '__init__' not in pn.methods:
+        raise AnalysisError('anchor vanished: PathNode.__init__')
+    pini = pn.methods['__init__']
+    ppos = pini.params[1] if len(pini.params) > 1 else None
+    if ppos is None:
+        raise AnalysisError('PathNode.__init__ lost its position parameter')
+    from ..engine.paths import paths_of as _paths156
+    same_forms = {ppos, ppos + '.copy()', 'copy.copy(%s)' % ppos, 'copy.deepcopy(%s)' % ppos, 'deepcopy(%s)' % ppos}
+    n_st = 0
+    for pth in _paths156(pini.node, pini.params):
+        sts = [e for e in pth.events if e[0] == 'store' and e[1] == 'self.position']
+        if not sts:
+            rep.ob('R15.6', pini, 'self.position bound on every path', False, 'a path through PathNode.__init__ leaves self.position unset', shape=True)
+            continue
+        val = sts[-1][3]
+        n_st += 1
+        none_path = any(k.replace(' ', '') in ('%sisNone' % ppos, '%s==None' % ppos) and v for k, v in pth.facts.items())
+        if val in same_forms or (val == 'None' and none_path):
+            rep.ob('R15.6', pini, 'self.position = the given position', True, val, line=sts[-1][2])
+        elif val in ('tm(%s)' % ppos, 'tm(%s.copy())' % ppos, 'tm(%s).copy()' % ppos):
+            sized = any(('len(%s)' % ppos) in k or (ppos + '.shape') in k or (ppos + '.size') in k or ('np.shape(%s)' % ppos) in k for k in pth.facts)
+            rep.ob('R15.6', pini, 'self.position = the given position', False,
+                   'for an argument that is not a tm the node stores %s: the general constructor reads a 3-sequence as a ROTATION (and a 3x1 likewise), so a node '
+                   'given the point [x, y, z] - which the separating-axis test, the distance function and the 3-d tree all read by components 0..2 - lands at the '
+                   'origin and every obstruction query about it answers for another segment' % val, shape=sized, line=sts[-1][2])
+        else:
+            rep.ob('R15.6', pini, 'self.position = the given position', False, 'self.position is bound to %s, not to the argument or a copy of it' % val[:80],
+                   shape=True, line=sts[-1][2])
+    rep.floor('R15.6', 'paths of PathNode.__init__ binding the position', n_st, 1)
+    gp = pn.methods.get('getPosition')
+    if gp is not None:
+        rets_gp = [norm_text(r.value) for r in ast.walk(gp.node) if isinstance(r, ast.Return) and r.value is not None]
+        rep.ob('R15.6', gp, 'getPosition returns the stored position', bool(rets_gp) and all(t in ('self.position', 'self.position.copy()') for t in rets_gp),
+               'getPosition returns %s' % rets_gp)
     writers = set()
     for f_ in model.all_funcs:
         for n in walk_own(f_.node):
